@@ -7,6 +7,9 @@
 //!   withdrawals = ~ | n { <script 0|1>[/<account>] <coin> }*
 //!   proposals   = ~ | n { <deposit>[/<action>/<return address>] }*
 //!   inputs / outputs = n { <coin> }*        donation = ~ | coin
+//! A proposal's <action> selects the governance action: shape = action % 14 over the seven kinds (info, no confidence,
+//! hard fork, new constitution, parameter change, treasury withdrawals, update committee) x prior action id x policy
+//! hash, content injective in <action>; the model knows no kind (the deposit is kind-independent).
 //! The label only names the generator stream.  The identities after the slashes (small numbers) and the
 //! salt determine every field the deposit code does not look at: <cred> the stake / DRep / committee
 //! credential (reward-account credential of a pool registration), <pool> the pool operator, <var>
@@ -68,10 +71,14 @@ fn mk_cert(tag: u32, coin: Option<BigNum>, script: bool, salt: u64, id: Id) -> C
             // pledge / cost are coins that are NOT deposits; operator = pool, reward account = cred, the rest = var
             let mut owners = Ed25519KeyHashes::new();
             owners.add(&keyhash(salt, var, 3));
+            let mut relays = Relays::new();
+            if var % 3 == 1 { relays.add(&Relay::new_single_host_name(&SingleHostName::new(Some(3001), &DNSRecordAorAAAA::new(format!("r{}.example", var)).unwrap()))); }
+            let metadata = if var % 2 == 1 { Some(PoolMetadata::new(&URL::new(format!("https://p.example/{}", var)).unwrap(),
+                &PoolMetadataHash::from_bytes(fill(salt, var, 27, 32)).unwrap())) } else { None };
             let params = PoolParams::new(&pool, &VRFKeyHash::from_bytes(fill(salt, var, 4, 32)).unwrap(),
-                &BigNum::from(1_000_000_000u64 + var as u64), &BigNum::from(340_000_000u64),
-                &UnitInterval::new(&BigNum::from(1u64), &BigNum::from(20u64)),
-                &RewardAddress::new(0, &cred(script, salt, id.cred, 5)), &owners, &Relays::new(), None);
+                &BigNum::from(1_000_000_000u64 + var as u64), &BigNum::from(340_000_000u64 + 1_000_000 * (var % 5) as u64),
+                &UnitInterval::new(&BigNum::from(1u64 + (var % 4) as u64), &BigNum::from(20u64)),
+                &RewardAddress::new((var % 2) as u8, &cred(script, salt, id.cred, 5)), &owners, &relays, metadata);
             Certificate::new_pool_registration(&PoolRegistration::new(&params))
         }
         4 => Certificate::new_pool_retirement(&PoolRetirement::new(&pool, 100 + var as u32)),
@@ -108,15 +115,66 @@ fn mk_cert(tag: u32, coin: Option<BigNum>, script: bool, salt: u64, id: Id) -> C
     }
 }
 
-/// governance action and anchor from `act`, return address from `ret`
+/// The 14 shapes of a governance action: the SEVEN kinds x with / without prior action id x with / without policy
+/// (script) hash where the kind has them.  The deposit figures must not depend on any of it.
+const ACTION_SHAPES: usize = 14;
+fn gov_action_id(salt: u64, act: usize) -> GovernanceActionId {
+    GovernanceActionId::new(&TransactionHash::from_bytes(fill(salt, act, 17, 32)).unwrap(), (act % 7) as u32)
+}
+/// a parameter update that CHANGES the deposit parameters (the figures use the caller's parameters, not these)
+fn param_update(act: usize) -> ProtocolParamUpdate {
+    let mut u = ProtocolParamUpdate::new();
+    u.set_key_deposit(&BigNum::from(7_000_000u64 + act as u64));
+    u.set_pool_deposit(&BigNum::from(900_000_000u64 + act as u64));
+    if act % 2 == 0 { u.set_drep_deposit(&BigNum::from(123_000_000u64)); u.set_governance_action_deposit(&BigNum::from(55_000_000_000u64)); }
+    u
+}
+/// governance action and anchor from `act` (shape = act % 14, content injective in act), return address from `ret`
+/// (network and key / script credential vary with it)
 fn mk_proposal(deposit: &BigNum, salt: u64, act: usize, ret: usize) -> VotingProposal {
-    let action = match act % 4 {
+    let aid = gov_action_id(salt, act);
+    let policy = scripthash(salt, act, 18);
+    let version = ProtocolVersion::new(10 + act as u32, 0);
+    let mut tw = TreasuryWithdrawals::new();
+    tw.insert(&RewardAddress::new(0, &cred(act % 3 == 0, salt, act, 19)), &BigNum::from(1_000_000_000u64 + act as u64));
+    let action = match act % ACTION_SHAPES {
         0 => GovernanceAction::new_info_action(&InfoAction::new()),
         1 => GovernanceAction::new_no_confidence_action(&NoConfidenceAction::new()),
-        2 => GovernanceAction::new_hard_fork_initiation_action(&HardForkInitiationAction::new(&ProtocolVersion::new(10 + act as u32, 0))),
-        _ => GovernanceAction::new_new_constitution_action(&NewConstitutionAction::new(&Constitution::new(&anchor(salt, act, 13)))),
+        2 => GovernanceAction::new_no_confidence_action(&NoConfidenceAction::new_with_action_id(&aid)),
+        3 => GovernanceAction::new_hard_fork_initiation_action(&HardForkInitiationAction::new(&version)),
+        4 => GovernanceAction::new_hard_fork_initiation_action(&HardForkInitiationAction::new_with_action_id(&aid, &version)),
+        5 => GovernanceAction::new_new_constitution_action(&NewConstitutionAction::new(&Constitution::new(&anchor(salt, act, 13)))),
+        6 => GovernanceAction::new_new_constitution_action(&NewConstitutionAction::new_with_action_id(&aid,
+                &Constitution::new_with_script_hash(&anchor(salt, act, 13), &policy))),
+        7 => GovernanceAction::new_parameter_change_action(&ParameterChangeAction::new(&param_update(act))),
+        8 => GovernanceAction::new_parameter_change_action(&ParameterChangeAction::new_with_action_id(&aid, &param_update(act))),
+        9 => GovernanceAction::new_parameter_change_action(&ParameterChangeAction::new_with_policy_hash(&param_update(act), &policy)),
+        10 => GovernanceAction::new_parameter_change_action(&ParameterChangeAction::new_with_policy_hash_and_action_id(&aid, &param_update(act), &policy)),
+        11 => GovernanceAction::new_treasury_withdrawals_action(&TreasuryWithdrawalsAction::new(&tw)),
+        12 => GovernanceAction::new_treasury_withdrawals_action(&TreasuryWithdrawalsAction::new_with_policy_hash(&tw, &policy)),
+        _ => {
+            let mut committee = Committee::new(&UnitInterval::new(&BigNum::from(2u64), &BigNum::from(3u64)));
+            committee.add_member(&cred(act % 2 == 1, salt, act, 20), 500 + act as u32);
+            let mut remove = Credentials::new();
+            remove.add(&cred(false, salt, act, 21));
+            GovernanceAction::new_new_committee_action(&if (act / ACTION_SHAPES) % 2 == 0 { UpdateCommitteeAction::new(&committee, &remove) }
+                                                         else { UpdateCommitteeAction::new_with_action_id(&aid, &committee, &remove) })
+        }
     };
-    VotingProposal::new(&action, &anchor(salt, act, 14), &RewardAddress::new(0, &cred(false, salt, ret, 15)), deposit)
+    VotingProposal::new(&action, &anchor(salt, act, 14), &RewardAddress::new((ret % 2) as u8, &cred(ret % 3 == 2, salt, ret, 15)), deposit)
+}
+
+/// a Plutus witness (script carried inline, or by reference input); the deposit code never looks at witnesses
+fn plutus_witness(salt: u64, i: usize, tag: &RedeemerTag) -> PlutusWitness {
+    let redeemer = Redeemer::new(tag, &BigNum::zero(), &PlutusData::new_bytes(fill(salt, i, 24, 8)),
+        &ExUnits::new(&BigNum::from(1000u64 + i as u64), &BigNum::from(1_000_000u64)));
+    if i % 4 == 1 {
+        PlutusWitness::new_without_datum(&PlutusScript::new_v2(fill(salt, i, 23, 40)), &redeemer)
+    } else {
+        let src = PlutusScriptSource::new_ref_input(&scripthash(salt, i, 25),
+            &TransactionInput::new(&TransactionHash::from_bytes(fill(salt, i, 26, 32)).unwrap(), 7), &Language::new_plutus_v3(), 100 + i);
+        PlutusWitness::new_with_ref_without_datum(&src, &redeemer)
+    }
 }
 
 struct Case {
@@ -203,7 +261,7 @@ fn exec(toks: &[String]) -> String {
     let certs: Option<Vec<Certificate>> = c.certs.as_ref().map(|v| v.iter()
         .map(|(tag, coin, s, id)| mk_cert(*tag, coin.clone(), *s, c.salt, *id)).collect());
     let wdrl: Option<Vec<(RewardAddress, BigNum)>> = c.wdrl.as_ref().map(|v| v.iter()
-        .map(|(s, acct, coin)| (RewardAddress::new(0, &cred(*s, c.salt, *acct, 16)), coin.clone())).collect());
+        .map(|(s, acct, coin)| (RewardAddress::new((*acct % 2) as u8, &cred(*s, c.salt, *acct, 16)), coin.clone())).collect());
     let props: Option<Vec<VotingProposal>> = c.props.as_ref().map(|v| v.iter()
         .map(|(d, act, ret)| mk_proposal(d, c.salt, *act, *ret)).collect());
 
@@ -238,7 +296,10 @@ fn exec(toks: &[String]) -> String {
     if let Some(cs) = &certs {
         for (i, x) in cs.iter().enumerate() {
             // Err: needs a script witness (then the native-script entry point), or "Certificate already exists"
-            if cb.add(x).is_err() { let _ = cb.add_with_native_script(x, &native_source(c.salt, i)); }
+            if cb.add(x).is_err() {
+                if i % 2 == 0 { let _ = cb.add_with_native_script(x, &native_source(c.salt, i)); }
+                else { let _ = cb.add_with_plutus_witness(x, &plutus_witness(c.salt, i, &RedeemerTag::new_cert())); }
+            }
         }
     }
     let cd = sc(cb.get_certificates_deposit(&c.pool, &c.key));
@@ -246,12 +307,20 @@ fn exec(toks: &[String]) -> String {
     let mut wb = WithdrawalsBuilder::new();
     if let Some(ws) = &wdrl {
         for (i, (a, v)) in ws.iter().enumerate() {
-            if wb.add(a, v).is_err() { wb.add_with_native_script(a, v, &native_source(c.salt, 1000 + i)).unwrap(); }
+            if wb.add(a, v).is_err() {
+                if i % 2 == 0 { wb.add_with_native_script(a, v, &native_source(c.salt, 1000 + i)).unwrap(); }
+                else { wb.add_with_plutus_witness(a, v, &plutus_witness(c.salt, 1000 + i, &RedeemerTag::new_reward())).unwrap(); }
+            }
         }
     }
     let wt = sv(wb.get_total_withdrawals());
     let mut pb = VotingProposalBuilder::new();
-    if let Some(ps) = &props { for x in ps { pb.add(x).unwrap(); } }
+    if let Some(ps) = &props {
+        for (i, x) in ps.iter().enumerate() {
+            // Err: the action carries a policy (script) hash
+            if pb.add(x).is_err() { pb.add_with_plutus_witness(x, &plutus_witness(c.salt, 2000 + i, &RedeemerTag::new_voting_proposal())).unwrap(); }
+        }
+    }
 
     let mut tb = new_tx_builder(&c);
     if certs.is_some() { tb.set_certs_builder(&cb); }
@@ -378,6 +447,8 @@ fn gen(dir: &str) {
             g.certs = Some(vec![(tag, c, v % 2 == 1)]);
             g.cert_ids = Some(vec![Id { cred: r.below(4) as usize, pool: r.below(4) as usize, var: r.below(8) as usize }]);
             if v % 6 >= 4 { g.wdrl = Some(vec![(false, small_coin(&mut r))]); g.props = Some(vec![small_coin(&mut r)]); }
+            { let ids: Vec<(usize, usize)> = g.props.as_ref().map(|p| p.iter().map(|_| (r.below(4 * ACTION_SHAPES as u64) as usize, r.below(9) as usize)).collect()).unwrap_or_default();
+            if g.props.is_some() && r.chance(3, 4) { g.prop_ids = Some(ids); } }
             emit(&mut out, g.line(&format!("kind{}", tag)));
         }
     }
@@ -402,6 +473,8 @@ fn gen(dir: &str) {
         g.ins = (0..r.below(4)).map(|_| coin(&mut r)).collect();
         g.outs = (0..r.below(4)).map(|_| coin(&mut r)).collect();
         if r.chance(1, 4) { g.donation = Some(coin(&mut r)); }
+        { let ids: Vec<(usize, usize)> = g.props.as_ref().map(|p| p.iter().map(|_| (r.below(4 * ACTION_SHAPES as u64) as usize, r.below(9) as usize)).collect()).unwrap_or_default();
+            if g.props.is_some() && r.chance(3, 4) { g.prop_ids = Some(ids); } }
         emit(&mut out, g.line("mix"));
     }
     // 4. random mixtures with edge-biased 64-bit amounts (frequent overflow somewhere)
@@ -415,6 +488,8 @@ fn gen(dir: &str) {
         g.ins = (0..r.below(3)).map(|_| coin(&mut r)).collect();
         g.outs = (0..r.below(3)).map(|_| coin(&mut r)).collect();
         if r.chance(1, 4) { g.donation = Some(coin(&mut r)); }
+        { let ids: Vec<(usize, usize)> = g.props.as_ref().map(|p| p.iter().map(|_| (r.below(4 * ACTION_SHAPES as u64) as usize, r.below(9) as usize)).collect()).unwrap_or_default();
+            if g.props.is_some() && r.chance(3, 4) { g.prop_ids = Some(ids); } }
         emit(&mut out, g.line("edge"));
     }
     // 5. totals straddling 2^64 exactly: the deposit side or the refund side sums to 2^64 + d, d in -2..=2,
@@ -467,6 +542,11 @@ fn gen(dir: &str) {
         if r.chance(1, 3) { g.ins = vec![r.below(3)]; }
         if r.chance(1, 3) { g.outs = vec![r.below(3)]; }
         if r.chance(1, 5) { g.donation = Some(r.below(3)); }
+        if let Some(p) = &g.props {
+            // pairwise different actions (i + 14 k), any shape, any return address: all parts are kept
+            let off = r.below(ACTION_SHAPES as u64) as usize;
+            g.prop_ids = Some((0..p.len()).map(|i| ((i + off) % ACTION_SHAPES + ACTION_SHAPES * r.below(3) as usize, r.below(5) as usize)).collect());
+        }
         emit(&mut out, g.line(if deposit_side { "ovf-dep" } else { "ovf-ref" }));
     }
     // 6. balancing totals at the boundary: inputs + implicit input, outputs + deposit + donation
@@ -485,6 +565,8 @@ fn gen(dir: &str) {
             g.props = Some(vec![parts[2]]);
             g.donation = Some(parts[3]);
         }
+        { let ids: Vec<(usize, usize)> = g.props.as_ref().map(|p| p.iter().map(|_| (r.below(4 * ACTION_SHAPES as u64) as usize, r.below(9) as usize)).collect()).unwrap_or_default();
+            if g.props.is_some() && r.chance(3, 4) { g.prop_ids = Some(ids); } }
         emit(&mut out, g.line("ovf-total"));
     }
     // 7. long sequences
@@ -602,7 +684,9 @@ fn gen(dir: &str) {
             let k = r.below(6) as usize;
             let a = coin(&mut r);
             g.props = Some((0..k).map(|_| if r.chance(2, 3) { a } else { coin(&mut r) }).collect());
-            g.prop_ids = Some((0..k).map(|_| (r.below(2) as usize, r.below(2) as usize)).collect());
+            // a base action, the same action again, its neighbour shape, the same shape with other content
+            let a0 = r.below(2 * ACTION_SHAPES as u64) as usize;
+            g.prop_ids = Some((0..k).map(|_| (a0 + *r.pick(&[0usize, 0, 1, ACTION_SHAPES]), r.below(2) as usize)).collect());
         }
         if r.chance(1, 3) { g.ins = vec![coin(&mut r)]; }
         if r.chance(1, 3) { g.outs = vec![coin(&mut r)]; }
@@ -641,9 +725,10 @@ fn gen(dir: &str) {
             1 => {
                 // proposals; the near-equal one has another return address
                 let mut props: Vec<u64> = parts.clone();
-                let mut ids: Vec<(usize, usize)> = (0..k).map(|i| (i, 0)).collect();
+                let a0 = r.below(3 * ACTION_SHAPES as u64) as usize;
+                let mut ids: Vec<(usize, usize)> = (0..k).map(|i| (a0 + i, 0)).collect();
                 props.insert(pos, parts[0]);
-                ids.insert(pos, if equal { (0, 0) } else { (0, 1) });
+                ids.insert(pos, if equal { (a0, 0) } else { (a0, 1) });
                 g.props = Some(props); g.prop_ids = Some(ids);
                 emit(&mut out, g.line(if equal { "ovf-merged-prop" } else { "ovf-kept-prop" }));
             }
@@ -662,6 +747,25 @@ fn gen(dir: &str) {
                 g.wdrl = Some(w); g.wd_ids = Some(ids);
                 emit(&mut out, g.line(if equal { "ovf-replaced-wd" } else { "ovf-kept-wd" }));
             }
+        }
+    }
+    // 10. every shape of governance action (7 kinds x prior action id x policy hash) leads a proposal list whose other
+    //     members have random shapes; the figures depend on the deposits only
+    for shape in 0..ACTION_SHAPES {
+        for v in 0..(5 * scale) {
+            let mut g = G::empty(&mut r);
+            g.pool = param(&mut r); g.key = param(&mut r);
+            let k = 1 + r.below(4) as usize;
+            let mut coin = |r: &mut Rng| if v % 5 == 0 { r.u64_edge() } else { match r.below(4) { 0 => 100_000_000_000, 1 => 0, _ => small_coin(r) } };
+            g.props = Some((0..k).map(|_| coin(&mut r)).collect());
+            let mut ids: Vec<(usize, usize)> = (0..k).map(|_| (r.below(4 * ACTION_SHAPES as u64) as usize, r.below(6) as usize)).collect();
+            ids[0].0 = shape + ACTION_SHAPES * r.below(4) as usize;
+            if r.chance(1, 3) { let j = r.below(k as u64) as usize; ids.swap(0, j); }
+            g.prop_ids = Some(ids);
+            if r.chance(1, 2) { let n = r.below(4) as usize; g.certs = Some((0..n).map(|_| rand_cert(&mut r, &mut coin, 20)).collect()); }
+            if r.chance(1, 3) { g.wdrl = Some(vec![(r.chance(1, 3), coin(&mut r))]); }
+            if r.chance(1, 4) { g.outs = vec![coin(&mut r)]; }
+            emit(&mut out, g.line(&format!("action{}", shape)));
         }
     }
     out.finish();
